@@ -134,6 +134,10 @@ func (x *Exec) execInstr(fr *Frame, in ssa.Instruction, st *State) {
 	case *ssa.Range:
 		v := x.value(fr, i.X)
 		fr.vals[i] = V{T: i.Type(), S: v.S, Tup: []V{v}}
+		if _, ok := i.X.Type().Underlying().(*types.Map); ok {
+			// ghost: number of entries this iteration has yielded so far (`rangecount`)
+			x.heapSet(st, rangeCountKey(fr.fn, i), types.Typ[types.Int], "0")
+		}
 	case *ssa.Next:
 		fr.vals[i] = x.next(fr, st, i)
 	case *ssa.Slice:
@@ -988,6 +992,16 @@ func (x *Exec) next(fr *Frame, st *State, i *ssa.Next) V {
 	x.assume(st.guard, implies(okv.S, and("(not (= "+m.S+" 0))", x.mapPresent(st, m, k.S))))
 	// an empty map yields nothing
 	x.assume(st.guard, implies("(= "+x.mapLen(st, m)+" 0)", not(okv.S)))
+	if rg, ok := i.Iter.(*ssa.Range); ok {
+		key := rangeCountKey(fr.fn, rg)
+		cnt := x.heapGet(st, key, types.Typ[types.Int])
+		if x.rangeMapStable(fr, i, mt) {
+			// a map that the loop does not write is visited entry by entry, each exactly once:
+			// the iteration goes on exactly while fewer than len(m) entries have been yielded
+			x.assume(st.guard, "(= "+okv.S+" (< "+cnt+" "+x.mapLen(st, m)+"))")
+		}
+		x.heapSet(st, key, types.Typ[types.Int], "(+ "+cnt+" (ite "+okv.S+" 1 0))")
+	}
 	val := x.define("rv", x.s.sortOf(mt.Elem()), x.mapValue(st, m, k.S))
 	x.assume(st.guard, x.valueInv(st, mt.Elem(), val))
 	kv := k
@@ -1044,4 +1058,48 @@ func (x *Exec) typeAssert(fr *Frame, st *State, i *ssa.TypeAssert) V {
 	}
 	x.check(fr, st, i.Pos(), "type-assert", ok)
 	return V{T: i.AssertedType, S: val}
+}
+
+// rangeCountKey names the ghost counter of one map iteration (a function-local pseudo global).
+func rangeCountKey(fn *ssa.Function, rg *ssa.Range) string {
+	n := 0
+	for _, b := range fn.Blocks {
+		for _, in := range b.Instrs {
+			if r, ok := in.(*ssa.Range); ok {
+				if _, isMap := r.X.Type().Underlying().(*types.Map); isMap {
+					n++
+					if r == rg {
+						return heapKeyGlobal(fmt.Sprintf("$range.%s.%d", fullFuncKey(fn), n))
+					}
+				}
+			}
+		}
+	}
+	return heapKeyGlobal(fmt.Sprintf("$range.%s.0", fullFuncKey(fn)))
+}
+
+func isRangeCountKey(key string) bool { return strings.HasPrefix(key, "G:$range.") }
+
+// rangeMapStable: the loop around this Next writes no map of the iterated type (and calls
+// nothing with unknown effects), so the iteration visits each entry exactly once.
+func (x *Exec) rangeMapStable(fr *Frame, i *ssa.Next, mt *types.Map) bool {
+	var li *loopInfo
+	for _, l := range fr.loops {
+		if l.blocks[i.Block()] && (li == nil || len(l.blocks) < len(li.blocks)) {
+			li = l
+		}
+	}
+	if li == nil {
+		return false
+	}
+	mods, all := x.loopTargets(fr, li)
+	if all {
+		return false
+	}
+	for _, k := range []string{heapKeyMapP(mt), heapKeyMapL(mt)} {
+		if mods[k] != nil {
+			return false
+		}
+	}
+	return true
 }
